@@ -36,8 +36,8 @@ Loops without a bound of their own in the Rust
 * `recreate_blocks` is `while !is_eof { … }` with no limit either, and on adversarial bytes it need
   not terminate (max_token_count = 0 read from the header, then blocks that consume nothing). The list
   model bounds it by the number of operations left (`ops.length + 1`); bytes have no such measure, so
-  `byteSrc.blockFuel` is the constant 2^32 (a DEFLATE stream of 2^32 blocks has ≥ 1.5 GiB; the parser
-  side is limited to 512 MiB of input). `Fail.fuel` from `decBlocksS byteSrc` stands for "more than 2^32
+  `byteSrc.blockFuel` is the constant 2^64 (no input reaches it; the parser
+  side never produces that many blocks for an input below 2^61 bytes). `Fail.fuel` from `decBlocksS byteSrc` stands for "more than 2^64
   blocks reconstructed".
 -/
 import Preflate.Model.Stream
@@ -349,8 +349,8 @@ def byteSrcWithin (maxBlocks : Nat) : Src BSt where
   popCorr := BSt.popCorr
   blockFuel := fun _ => maxBlocks
 
-/-- the BYTE instance (2^32 blocks, see the header comment) -/
-def byteSrc : Src BSt := byteSrcWithin (2 ^ 32)
+/-- the BYTE instance (2^64 blocks, see the header comment) -/
+def byteSrc : Src BSt := byteSrcWithin (2 ^ 64)
 
 -- ---------------------------------------------------------------------------------------------
 -- the public pair at the real API type
@@ -365,7 +365,7 @@ def recompressBytesWithin (maxBlocks : Nat) (mk : Params → Pred H) (plain : Ar
 
 /-- `recompress_deflate_stream(plain_text, prediction_corrections)`: bytes in, bytes out -/
 def recompressBytes (mk : Params → Pred H) (plain : Array Nat) (bytes : Array UInt8) : R (List UInt8) :=
-  recompressBytesWithin (2 ^ 32) mk plain bytes
+  recompressBytesWithin (2 ^ 64) mk plain bytes
 
 /-- the `if verify { … }` part of `decompress_deflate_stream`, as the code runs it: a fresh decoder
     over the correction BYTES -/
